@@ -82,6 +82,7 @@ def check_chain(ctx: Ctx, c: Dict[str, Any], variant: int = 0) -> None:
     else:  # two images with different grids of the same shape
         x = ImageBatch(torch.stack([ramp_on(base, a, b).unsqueeze(0), ramp_on(base2, a, b).unsqueeze(0)]), [base, base2])
     hulls = [[base], [base2]]
+    x0 = x
     for k, o in enumerate(hist):
         try:
             x = apply_img_op(x, o, variant)
@@ -140,6 +141,38 @@ def check_chain(ctx: Ctx, c: Dict[str, Any], variant: int = 0) -> None:
         if err > 2e-4 * max(1.0, float(expv.abs().max())):
             ctx.violation(dict(**sig, attr="data", item=it),
                           f"{what}: data is not where the returned grid says (ramp off by {err:.3g} on {int(m.sum())} samples inside the original field of view)", c)
+            return
+    # (3b) the sampling route to the same place: the ORIGINAL image(s) sampled on the derived grid(s) - taken with the other
+    # align_corners flag, which names the same sample positions - must hold the ramp at those positions and carry those grids
+    if len(hist) == 1:
+        targets = [g.align_corners(not g.align_corners()) for g in grids]
+        try:
+            y = x0.sample(targets[0] if kind != "batch2" else targets, mode="linear", padding="border")
+            ygrids = [y.grid()] if kind == "image" else list(y.grids())
+            ydata = y.tensor() if kind != "image" else y.tensor().unsqueeze(0)
+            def same_grid(p_, q_):
+                # (the align_corners flag is not compared: sampling on a grid that equals the image's own grid returns the image as it is)
+                return (tuple(p_.size()) == tuple(q_.size()) and max_err(p_.center(), q_.center()) < 1e-4
+                        and max_err(p_.spacing(), q_.spacing()) < 1e-5 and max_err(p_.direction(), q_.direction()) < 1e-5)
+
+            if len(ygrids) != nitems or any(not same_grid(yg, tg) for yg, tg in zip(ygrids, targets)):
+                ctx.violation(dict(**sig, attr="sample_grid"), f"{what}: sample() on the derived grid(s) does not return those grid(s)", c)
+                return
+            for it in range(nitems):
+                tg = targets[it]
+                w = tg.index_to_world(tg.coords(normalize=False).to(torch.float32)).to(torch.float64).reshape(-1, D)
+                m = inside_hull(hulls[it][0], w, margin_index=0.05)
+                if int(m.sum()) == 0:
+                    continue
+                expv = w @ a + b
+                err = float((ydata[it, 0].reshape(-1).to(torch.float64) - expv)[m].abs().max())
+                if err > 3e-4 * max(1.0, float(expv.abs().max())):
+                    ctx.violation(dict(**sig, attr="sample_data", item=it),
+                                  f"{what}: the original image sampled on the derived grid (align_corners={tg.align_corners()}) is off the ramp by {err:.3g} "
+                                  f"on {int(m.sum())} samples inside the field of view", c)
+                    return
+        except Exception as ex:
+            ctx.violation(dict(**sig, attr="sample", exc=type(ex).__name__), f"{what}: sample() on the derived grid raised {type(ex).__name__}: {str(ex)[:120]}", c)
             return
     # (4) the probes computed exactly by the specification (first item)
     g = grids[0]
